@@ -116,6 +116,8 @@ def handleCue (line : String) : String :=
     let root := match j.getObjVal? "s" with | .ok s => decTy s | _ => .prim "top"
     let p := match j.getObjVal? "p" with | .ok (.arr a) => a.toList.filterMap (·.getStr?.toOption) | _ => []
     let cp := (j.getObjValAs? String "cp").toOption.getD ""
+    let pos := (j.getObjValAs? String "pos").toOption.getD ""
+    if pos != "" then "UNMODELLED" else      -- only key-only paths are modelled; other query shapes are checked by the Go oracle
     match validate root p cp with
     | .acc t io => s!"ACC {t} {io}"
     | .rej c => s!"REJ {c}"
